@@ -17,7 +17,7 @@ from p_c05 import AGGS, COQ_AGG, oagg
 GEN_PREFIXES = ["verif/aggregator.py", "verif/util.py:nprange", "verif/util.py:numvalid"]
 EXTRA_TARGETS = ["Model/Render.vo", "Gen/Gen_aggregator.vo", "Model/WindowQ.vo"]
 ASSUMPTIONS = ["numpy reductions restated in coq/Base/Vec.v (population variance, linear percentile, NaN propagation)",
-               "pre-aggregated arrays are stored as float32: compared with relative tolerance 1e-5",
+               "pre-aggregated arrays are compared with tolerance 1e-9 (they were stored as float32 by the pinned code: fixed)",
                "the theorem about the trailing window assumes a strictly increasing grid; unsorted grids are a known finding"]
 NAN = float("nan")
 QAGG = ["mean", "sum", "min", "max", "range", "count", "change", "abschange", "meanabs", "absmean", "median", "variance"]
@@ -97,7 +97,7 @@ def _explore(out, tier, seed, facts, replay):
             grid = rng.sample([0, 1, 2, 3, 6, 9, 12, 18, 24], n)
         h = rng.choice([1, 2, 3, 4, 6, 7, 12, 24, 100])
         nt, nl, ns = (rng.randint(1, 3), n, rng.randint(1, 2)) if lead_axis else (n, rng.randint(1, 3), rng.randint(1, 2))
-        cube = [[[None if rng.random() < 0.1 else rng.randint(-8, 16) / 4.0 for _ in range(ns)] for _ in range(nl)] for _ in range(nt)]
+        cube = [[[None if rng.random() < 0.1 else (rng.randint(-8, 16) / 4.0 if rng.random() < 0.6 else rng.randint(-20, 40) / 10.0) for _ in range(ns)] for _ in range(nl)] for _ in range(nt)]
         arr = np.array([[[NAN if v is None else v for v in r] for r in p] for p in cube], float)
         k = rng.randrange(len(QAGG))
         a = aggs[QAGG[k]]
@@ -122,7 +122,7 @@ def _explore(out, tier, seed, facts, replay):
         got = common.coq_eval_float_lists("From Coq Require Import ZArith QArith.\nFrom VF Require Import Base.Num Model.DataQ Model.Window Model.WindowQ.",
                                           wexprs, "c15w_%d" % seed, chunk=40, float_scope=False)
         for g, e, dsc in zip(got, wexp, wdescr):
-            if not common.close_lists(g, e, 1e-5):
+            if not common.close_lists(g, e, 1e-9):
                 wdis.append({"case": dsc, "model": g, "implementation": e})
     except RuntimeError as ex:
         out.broken_obligation("tie:Model/Window.v", str(ex)[-1500:])
@@ -157,7 +157,7 @@ def _explore(out, tier, seed, facts, replay):
                     else:
                         want.append(oagg(dsc["agg"], vals))
         nf += 1
-        if not common.close_lists(res, want, 1e-5):
+        if not common.close_lists(res, want, 1e-9):
             out.violation("window:unsorted-grid" if unsorted else "window:%s" % dsc["axis"], "-T %r along %s with -Tagg %s on grid %r: result %r, trailing window (l-h, l] gives %r"
                           % (h, dsc["axis"], dsc["agg"], grid, res[:8], want[:8]), dsc)
         if len(samples) < 3:
@@ -208,7 +208,7 @@ def _explore(out, tier, seed, facts, replay):
             want = datagen.impl_request(ds2, (["obs", "fcst"], 0, 3, 0))
             nf += 1
             g = [[float(v) for v in col] for col in got]
-            if not isinstance(want, tuple) and not all(common.close_lists(a, b, 1e-5) for a, b in zip(g, want)):
+            if not isinstance(want, tuple) and not all(common.close_lists(a, b, 1e-9) for a, b in zip(g, want)):
                 out.violation("dim-agg-through-data", "-T %r -Tagg %s: scores differ from the trailing-window transform of obs and fcst" % (h, aname),
                               {"dataset": ds, "h": h, "agg": aname})
     # ensemble members are pre-aggregated too: probabilities and quantiles derived from the ensemble under -T
@@ -250,7 +250,7 @@ def _explore(out, tier, seed, facts, replay):
                 except Exception as e:
                     out.violation("ensemble-preaggregation-exception", "%s from the ensemble under -T raised %r" % (kind, e), {"leads": leads, "ensemble": ens, "h": h})
                     continue
-                if not common.close_lists(got, want, 1e-5):
+                if not common.close_lists(got, want, 1e-6 if kind == "threshold" else 1e-9):      # the member fraction is a float32 mean
                     out.violation("ensemble-not-preaggregated:%s" % kind, "-T %r -Tagg %s, inputs ctrl/fcst.txt and exp/fcst.txt: %s derived from the ensemble of input %d is %r; from ITS pre-aggregated members it is %r"
                                   % (h, aname, kind, k_in, got, want), {"leads": leads, "ensemble_of_input_0": ens, "ensemble_of_input_1": ens2, "h": h, "agg": aname, "threshold": t, "quantile": q})
     # quantile aggregators at arbitrary levels in [0, 1]; levels outside are rejected
